@@ -248,7 +248,8 @@ def sliceOutJson (c : CubeData) (x : SliceOutX) : Json :=
          ("columns_scale", scaleJson x.colsScale x.colsStderrDefined),
          ("rows_margin_proportion", jOptVals x.rowsMarginProp),
          ("columns_margin_proportion", jOptVals x.colsMarginProp)]
-        ++ MKey.all.map (fun k => (MKey.name k, if sliceAvail c k then jMat (o.mat k) else .null))
+        ++ (MKey.all.filter (fun k => !(MKey.name k).startsWith "key:")).map
+            (fun k => (MKey.name k, if sliceAvail c k then jMat (o.mat k) else .null))
         ++ OKey.all.map (fun k => (OKey.name k, jOutMat (x.omat k))))
 
 def strandOutJson (c : StrandData) (x : StrandOutX) : Json :=
@@ -260,7 +261,8 @@ def strandOutJson (c : StrandData) (x : StrandOutX) : Json :=
          ("population_counts_moe", jOuts x.popMoe),
          ("scale_mean", Scale.soutToJson x.scale.mean), ("scale_median", Scale.soutToJson x.scale.median),
          ("scale_std_dev", Scale.soutToJson x.scale.stddev), ("scale_std_err", Scale.soutToJson x.scale.stderr)]
-        ++ SKey.all.map (fun k => (SKey.name k, if strandAvail c k then jVals (o.vec k) else .null))
+        ++ (SKey.all.filter (fun k => !(SKey.name k).startsWith "key:")).map
+            (fun k => (SKey.name k, if strandAvail c k then jVals (o.vec k) else .null))
         ++ OSKey.all.map (fun k => (OSKey.name k, jOuts (x.ovec k))))
 
 def blocksJson (b : Blocks) : Json :=
